@@ -21,7 +21,7 @@ import (
 )
 
 const (
-	MaxTasks  = 8
+	MaxTasks  = 32
 	MaxPlan   = 32
 	MaxSwitch = 256
 	MaxSites  = 8192
@@ -48,6 +48,8 @@ var (
 
 	cur       int
 	ntasks    int
+	baseTasks int // tasks created by the harness; higher indices were spawned by `go` statements of the code under test
+	Spawned   uint64
 	token     int = -1
 	done      [MaxTasks]bool
 	blockedOn [MaxTasks]uintptr
@@ -98,6 +100,8 @@ func Reset(n int, plan []Plan, mapSeed uint64) {
 	Active = true
 	Steps = 0
 	ntasks = n
+	baseTasks = n
+	Spawned = 0
 	cur = 0
 	token = -1
 	abortAll = false
@@ -140,6 +144,11 @@ func Reset(n int, plan []Plan, mapSeed uint64) {
 	mapSeedBase = mapSeed
 	mapCtr = 0
 	nLocks = 0
+	nWG = 0
+	childAbort = ""
+	for i := range exited {
+		exited[i] = false
+	}
 	monitorReset()
 }
 
@@ -178,6 +187,10 @@ func WaitTurn(me int) {
 //go:norace
 func waitToken(me int) {
 	for token != me {
+		if !Active && me >= baseTasks {
+			// the simulated phase ended while this spawned task was still parked
+			runtime.Goexit()
+		}
 		runtime.Gosched()
 	}
 	if abortAll {
@@ -311,6 +324,11 @@ func step(site uint32) {
 		opLimit[me] = 0
 		panic(Abort{"budget"})
 	}
+	if childAbort != "" && me < baseTasks {
+		k := childAbort
+		childAbort = ""
+		panic(Abort{k})
+	}
 	if heapLimit != 0 && Steps&0xffff == 0 {
 		var ms runtime.MemStats
 		runtime.ReadMemStats(&ms)
@@ -367,6 +385,9 @@ func OpStart(budget uint64) {
 func OpEnd() {
 	if !Active {
 		return
+	}
+	if baseTasks == 1 && ntasks > 1 {
+		Drain()
 	}
 	inOp[cur] = false
 	opLimit[cur] = 0
